@@ -341,30 +341,31 @@ Definition canon_nat (s : string) : bool :=
      every cell an NA token or accepted by the float parser -> float64, NA tokens NaN
      every cell an NA token or TRUE/FALSE:  no NA -> bool;  else object holding True / False / NaN
      otherwise                                           -> str, NA tokens NaN, the rest verbatim *)
-Definition decide (cells : list string) : option (rdtype * list rcell) :=
-  let cs := map trunc_nul cells in
+Definition decide_body (cs : list string) : option (rdtype * list rcell) :=
   let ls := map classify cs in
-  match cs with
+  if existsb big ls then
+    if forallb canon_nat cs && negb (existsb too_big ls) then
+      if existsb is_empty cs then Some (DStr, map RStr cs)
+      else Some (DUInt64, map (fun c => match classify c with LInt z => RInt z | _ => RNaN end) cs)
+    else None
+  else if forallb int_or_na ls then
+    if existsb is_LNA ls then
+      Some (DFloat64, map (fun c => match classify c with
+                                    | LInt z => if Z.eqb z i64_min then RNaN else RFint (round_f64 z)
+                                    | _ => RNaN end) cs)
+    else Some (DInt64, map (fun c => match classify c with LInt z => RInt z | _ => RNaN end) cs)
+  else if forallb num_or_na ls then
+    Some (DFloat64, map (fun c => match classify c with LNA => RNaN | _ => RFlit c end) cs)
+  else if forallb bool_or_na ls then
+    if existsb is_LNA ls then
+      Some (DObject, map (fun c => match classify c with LBool b => RBool b | _ => RNaN end) cs)
+    else Some (DBool, map (fun c => match classify c with LBool b => RBool b | _ => RNaN end) cs)
+  else Some (DStr, map (fun c => match classify c with LNA => RNaN | _ => RStr c end) cs).
+
+Definition decide (cells : list string) : option (rdtype * list rcell) :=
+  match cells with
   | [] => Some (DObject, [])
-  | _ =>
-    if existsb big ls then
-      if forallb canon_nat cs && negb (existsb too_big ls) then
-        if existsb is_empty cs then Some (DStr, map RStr cs)
-        else Some (DUInt64, map (fun c => match classify c with LInt z => RInt z | _ => RNaN end) cs)
-      else None
-    else if forallb int_or_na ls then
-      if existsb is_LNA ls then
-        Some (DFloat64, map (fun c => match classify c with
-                                      | LInt z => if Z.eqb z i64_min then RNaN else RFint (round_f64 z)
-                                      | _ => RNaN end) cs)
-      else Some (DInt64, map (fun c => match classify c with LInt z => RInt z | _ => RNaN end) cs)
-    else if forallb num_or_na ls then
-      Some (DFloat64, map (fun c => match classify c with LNA => RNaN | _ => RFlit c end) cs)
-    else if forallb bool_or_na ls then
-      if existsb is_LNA ls then
-        Some (DObject, map (fun c => match classify c with LBool b => RBool b | _ => RNaN end) cs)
-      else Some (DBool, map (fun c => match classify c with LBool b => RBool b | _ => RNaN end) cs)
-    else Some (DStr, map (fun c => match classify c with LNA => RNaN | _ => RStr c end) cs)
+  | _ => decide_body (map trunc_nul cells)
   end.
 
 (* pandas.read_csv(path) with default arguments: column name, and the inferred column (None = a column
@@ -407,6 +408,16 @@ Definition frame_reads_back (t : tframe) : bool :=
   | Some (_ :: cols) => forallb2 column_reads_back t cols
   | _ => false
   end.
+
+Fixpoint rlookup (f : rframe) (n : string) : option (option (rdtype * list rcell)) :=
+  match f with
+  | [] => None
+  | (k, v) :: r => if String.eqb k n then Some v else rlookup r n
+  end.
+
+(* the column called n in pandas.read_csv(path) of a file holding this text *)
+Definition read_column (text : string) (n : string) : option (option (rdtype * list rcell)) :=
+  match read_csv_default text with Some f => rlookup f n | None => None end.
 
 (* a frame as pandas builds it from a dict of equal-length columns *)
 Definition wf_frame (t : tframe) : Prop :=
